@@ -399,8 +399,13 @@ def o_pair(op, args, st, outv):
     word = '>=' if sgn == 1 else '<='
     chk(op, 'Loewner %s first' % word, max(0.0, -min_eig(da)), tol, out)
     chk(op, 'Loewner %s second' % word, max(0.0, -min_eig(db)), tol, out)
-    if not (min_eig(c) > 0):
-        out.append('%s: result is not positive definite' % op)
+    if op == 'intersect':
+        if not (min_eig(c) > 0):
+            out.append('intersect: result is not positive definite')
+    else:
+        # the dual bound is only claimed to be below both arguments; its small eigenvalues can be
+        # lost to rounding amplified by cond(A), so positivity is required up to the same tolerance
+        chk(op, 'positive semi-definite', max(0.0, -min_eig(c)), tol, out)
     if [hx(x) for x in a] == [hx(x) for x in b]:
         chk(op, 'idempotent', maxabs(msub(c, dec(ia.mat))), tol, out)
     # reference: A^{1/2} V clamp(mu) V^T A^{1/2} with (mu,V) the spectrum of A^{-1/2} B A^{-1/2}
